@@ -154,9 +154,10 @@ CostFamilies == {
     <<"zip_ratio",             {"admitted"},       {1048576, 8388608}>>,
     <<"mbox_from",             {"bare", "full"},   {100, 1000}>>,
     \* typed-but-empty ODS cells / rows (value-type string, no text) repeated: they are EMPTY, the caps apply
-    <<"ods_cell_repeat_typed_empty", {"string_p.first", "string_p.last", "string_nop.first", "string_nop.last", "string_attr.first", "string_attr.last", "string_span.first", "string_span.last"},
+    \* ("covered": a table:covered-table-cell -- the part of a merge hidden under its left neighbour -- repeated)
+    <<"ods_cell_repeat_typed_empty", {"string_p.first", "string_p.last", "string_nop.first", "string_nop.last", "string_attr.first", "string_attr.last", "string_span.first", "string_span.last", "covered.first", "covered.last"},
                                {100, 10000, 1000000, 100000000, P2}>>,
-    <<"ods_row_repeat_typed_empty", {"string_p.first", "string_p.last", "string_nop.first", "string_nop.last", "string_attr.first", "string_attr.last", "string_span.first", "string_span.last"},
+    <<"ods_row_repeat_typed_empty", {"string_p.first", "string_p.last", "string_nop.first", "string_nop.last", "string_attr.first", "string_attr.last", "string_span.first", "string_span.last", "covered.first", "covered.last"},
                                {100, 10000, 100000000}>>,
     \* many / nested bitmap headers and PNG signatures in a Word binary stream
     <<"doc_dib_headers",       {"nested", "chain", "overrun", "disjoint"}, {10, 1000, 4000}>>,
